@@ -573,6 +573,8 @@ def handler_oracle(ctx, line, m):
     if draw >= 0 and abs(draw - qplus) > band and m["changed"] != want:
         ctx.fail(f"{name}:acceptance-not-exact-ratio", case,
                  f"accepted={m['changed']} but draw {float(draw)!r} {'<' if want else '>='} max(0,true)={float(qplus)!r}")
+    if m["changed"] and qplus == 0 and band == 0:
+        ctx.fail(f"{name}:accepted-with-zero-true-rate", case, "the true rate is max(0, q) = 0, yet the event was confirmed")
     if not m["changed"]:
         return
     # accepted: velocity moved from the active unit to exactly one other leaf unit
